@@ -50,3 +50,5 @@ const (
 func simHook(ev simEvent, pj *internalParsedJson, arg int) {}
 
 func simProbe(id int) {}
+
+func simSlotOf(pj *internalParsedJson, p *[indexSize]uint32) int { return 0 }
